@@ -398,6 +398,27 @@ pub fn worker_main(check: &dyn Check, tier: Tier, unit_idx: usize, shard: u32, o
     f.write_all(rec.to_json().to_string().as_bytes()).expect("write worker output");
 }
 
+/// Runs `xtv replay <path>` with a wall-clock limit; returns Some(success) or
+/// None when it had to be killed.
+fn confirm_replay(exe: &Path, path: &Path, limit: Duration) -> Option<bool> {
+    let mut child = Command::new(exe).arg("replay").arg(path).stdin(Stdio::null()).stdout(Stdio::null()).stderr(Stdio::null()).spawn().ok()?;
+    let start = Instant::now();
+    loop {
+        match child.try_wait() {
+            Ok(Some(st)) => return Some(st.success()),
+            Ok(None) => {
+                if start.elapsed() > limit {
+                    let _ = child.kill();
+                    let _ = child.wait();
+                    return None;
+                }
+                std::thread::sleep(Duration::from_millis(50));
+            }
+            Err(_) => return Some(false),
+        }
+    }
+}
+
 pub struct RunSummary {
     pub exit: i32,
 }
@@ -521,6 +542,7 @@ pub fn run_check(check: &dyn Check, tier: Tier) -> i32 {
     let mut rejects = 0u64;
     let mut per_unit: BTreeMap<String, J> = BTreeMap::new();
     let mut notes: Vec<String> = vec![];
+    let mut abnormal: Vec<(usize, u32, String)> = vec![];
     for r in &results {
         let uname = units[r.unit].name;
         match (&r.record, r.status.as_str()) {
@@ -577,48 +599,73 @@ pub fn run_check(check: &dyn Check, tier: Tier) -> i32 {
                 infra_errors.push(format!("unit {} shard {} exceeded the shard time limit (inconclusive)", uname, r.shard));
             }
             (_, status) => {
-                // worker died: recover the fatal case by re-running with tracing
-                println!("worker for unit {} shard {} ended abnormally ({}); re-running with tracing", uname, r.shard, status);
-                let trace = tmp.join(format!("trace-u{}s{}.json", r.unit, r.shard));
-                let out = tmp.join(format!("u{}s{}-retry.json", r.unit, r.shard));
-                let _ = std::fs::remove_file(&trace);
-                let mut child = spawn_worker(&exe, id, tier, r.unit, r.shard, &out, Some(&trace));
-                let st = child.wait();
-                let crashed_again = !matches!(&st, Ok(s) if s.success());
-                let traced = std::fs::read_to_string(&trace).ok().and_then(|t| serde_json::from_str::<J>(&t).ok());
-                let retry_record = std::fs::read_to_string(&out).ok().and_then(|t| serde_json::from_str::<J>(&t).ok());
-                let retry_failure = retry_record.as_ref().and_then(|r| r.get("failure").filter(|f| !f.is_null()).cloned());
-                if let (false, Some(f)) = (crashed_again, &retry_failure) {
-                    // the traced re-run attributed the problem to a case by itself
-                    let msg = f["message"].as_str().unwrap_or("").to_string();
-                    let mut case = f["case"].clone();
-                    if case.get("unit").is_none() {
-                        case["unit"] = json!(uname);
-                    }
-                    let p = write_replay(id, &msg, &case);
-                    println!("failure in unit {} shard {} (traced re-run): {}", uname, r.shard, msg);
-                    violations.push((msg, p));
-                    continue;
-                }
-                match (crashed_again, traced) {
-                    (true, Some(mut case)) => {
-                        if case.get("unit").is_none() {
-                            case["unit"] = json!(uname);
-                        }
-                        let msg = format!("process died ({}) while executing this case", status);
-                        let p = write_replay(id, &msg, &case);
-                        // confirm in a single-case subprocess
-                        let confirm = Command::new(&exe).arg("replay").arg(&p).stdin(Stdio::null()).stdout(Stdio::null()).stderr(Stdio::null()).status();
-                        match confirm {
-                            Ok(s) if s.success() => {
-                                infra_errors.push(format!("worker crash in unit {} shard {} did not reproduce on the traced case", uname, r.shard));
-                                let _ = std::fs::remove_file(&p);
+                abnormal.push((r.unit, r.shard, status.to_string()));
+            }
+        }
+    }
+
+    // workers that died (signal, sanitizer report, watchdog): attribute each death
+    // to a case by a traced re-run and confirm it alone; shards are handled in
+    // parallel because a hang costs minutes to confirm
+    if !abnormal.is_empty() {
+        let confirm_limit = Duration::from_secs(check.watchdog_secs() * 10 + 90);
+        let outcomes: Vec<(usize, u32, Result<(String, PathBuf), String>)> = std::thread::scope(|scope| {
+            let handles: Vec<_> = abnormal
+                .iter()
+                .map(|(unit, shard, status)| {
+                    let (exe, tmp, units) = (&exe, &tmp, &units);
+                    scope.spawn(move || {
+                        let uname = units[*unit].name;
+                        println!("worker for unit {} shard {} ended abnormally ({}); re-running with tracing", uname, shard, status);
+                        let trace = tmp.join(format!("trace-u{}s{}.json", unit, shard));
+                        let out = tmp.join(format!("u{}s{}-retry.json", unit, shard));
+                        let _ = std::fs::remove_file(&trace);
+                        let mut child = spawn_worker(exe, id, tier, *unit, *shard, &out, Some(&trace));
+                        let st = child.wait();
+                        let crashed_again = !matches!(&st, Ok(s) if s.success());
+                        let traced = std::fs::read_to_string(&trace).ok().and_then(|t| serde_json::from_str::<J>(&t).ok());
+                        let retry_record = std::fs::read_to_string(&out).ok().and_then(|t| serde_json::from_str::<J>(&t).ok());
+                        let retry_failure = retry_record.as_ref().and_then(|r| r.get("failure").filter(|f| !f.is_null()).cloned());
+                        if let (false, Some(f)) = (crashed_again, &retry_failure) {
+                            // the traced re-run attributed the problem to a case by itself
+                            let msg = f["message"].as_str().unwrap_or("").to_string();
+                            let mut case = f["case"].clone();
+                            if case.get("unit").is_none() {
+                                case["unit"] = json!(uname);
                             }
-                            _ => violations.push((msg, p)),
+                            let p = write_replay(id, &msg, &case);
+                            return (*unit, *shard, Ok((msg, p)));
                         }
-                    }
-                    _ => infra_errors.push(format!("worker for unit {} shard {} died ({}) and the crash did not reproduce under tracing", uname, r.shard, status)),
+                        match (crashed_again, traced) {
+                            (true, Some(mut case)) => {
+                                if case.get("unit").is_none() {
+                                    case["unit"] = json!(uname);
+                                }
+                                let msg = format!("process died or stopped making progress ({}) while executing this case", status);
+                                let p = write_replay(id, &msg, &case);
+                                match confirm_replay(exe, &p, confirm_limit) {
+                                    Some(true) => {
+                                        let _ = std::fs::remove_file(&p);
+                                        (*unit, *shard, Err(format!("worker death in unit {} shard {} did not reproduce on the traced case (inconclusive)", uname, shard)))
+                                    }
+                                    Some(false) => (*unit, *shard, Ok((msg, p))),
+                                    None => (*unit, *shard, Ok((format!("no result within {} s when the traced case is run alone ({})", confirm_limit.as_secs(), status), p))),
+                                }
+                            }
+                            _ => (*unit, *shard, Err(format!("worker for unit {} shard {} died ({}) and the death did not reproduce under tracing", uname, shard, status))),
+                        }
+                    })
+                })
+                .collect();
+            handles.into_iter().map(|h| h.join().expect("attribution thread")).collect()
+        });
+        for (unit, shard, outcome) in outcomes {
+            match outcome {
+                Ok((msg, p)) => {
+                    println!("failure in unit {} shard {}: {}", units[unit].name, shard, msg);
+                    violations.push((msg, p));
                 }
+                Err(e) => infra_errors.push(e),
             }
         }
     }
